@@ -613,7 +613,10 @@ struct Visitor : RecursiveASTVisitor<Visitor> {
     json::Object O;
     O["usr"] = U; O["name"] = D.qname(F); O["sig"] = D.sigOf(F);
     O["ret"] = D.typeId(F->getReturnType());
-    O["file"] = D.fileOf(F->getLocation()); O["line"] = D.lineOf(F->getLocation());
+    // the definition's own location (for instantiated members getLocation() is the in-class declaration)
+    SourceLocation DefLoc = F->getLocation();
+    if (F->getBody() && D.fileOf(F->getBody()->getBeginLoc()) != D.fileOf(DefLoc)) DefLoc = F->getBody()->getBeginLoc();
+    O["file"] = D.fileOf(DefLoc); O["line"] = D.lineOf(DefLoc);
     O["endline"] = D.lineOf(F->getEndLoc());
     if (F->isTemplateInstantiation()) {
       O["tmpl"] = "inst";
